@@ -137,8 +137,12 @@ def run(ctx):
                     ctx.check("scalar_representations", bool(good), key + "/scalar_representation",
                               lambda: f"l={l}: angles given as {rep} ({x!r}, {y!r}) do not give Y_lm", {"l": l, "representation": rep})
         # ---- (3) dispatcher
-        for a, b in [(0.3, 0.7), (2.0, -2.0), (0.0, 0.0)] + [(float(x), float(y)) for x, y in zip(th[:9], ph[:9])]:
-            ok, v = ctx.call("sph_harm_l", SH.sph_harm_l, l, a, b, data={"l": l})
+        # generic angles, both poles exactly (arccos(1.0), arccos(-1.0): bonds along +-z in an axis-aligned crystal), the equator,
+        # and the degree given as a Python int or as a numpy integer (for l in np.arange(...))
+        for a, b in [(0.3, 0.7), (2.0, -2.0), (0.0, 0.0), (float(np.arccos(-1.0)), 0.0), (float(np.arccos(-1.0)), 1.3), (0.0, -2.1), (np.pi / 2, np.pi)] + \
+                [(float(x), float(y)) for x, y in zip(th[:9], ph[:9])]:
+            lrep = [l, np.int64(l), np.int32(l)][int(round(abs(a + b) * 1000)) % 3]
+            ok, v = ctx.call("sph_harm_l", SH.sph_harm_l, lrep, a, b, data={"l": l, "l_type": type(lrep).__name__, "theta": a, "phi": b})
             if ok:
                 good = v is not None and np.shape(v) == (2 * l + 1,) and np.abs(np.asarray(v) - sph_harm_y(l, ms, a, b)).max() <= eps_tab
                 ctx.check("dispatcher", bool(good), f"sph_harm_l/l=={l}",
@@ -159,6 +163,16 @@ def run(ctx):
                 ok1, v1 = ctx.call(name, f, data={"l": l})
                 if not ok1 or v1 is None:
                     continue
+                # a returned table belongs to the caller: a later call (other angles) must not change what the caller holds
+                keep = np.array(v1, copy=True)
+                a2, b2 = float(np.arccos(rngh.uniform(-1, 1))), float(rngh.uniform(-np.pi, np.pi))
+                g = {"sph_harm_l": lambda: SH.sph_harm_l(l, a2, b2)}.get(name) or (
+                    (lambda: getattr(SH, f"SphHarm{l}")(a2, b2)) if l <= 10 else (lambda: SH.SphHarm_above(l, a2, b2)))
+                okg, _vg = ctx.call(name, g, data={"l": l})
+                if okg:
+                    ctx.check("history", np.array_equal(np.asarray(v1), keep), f"{name}/earlier_result_changed",
+                              lambda: f"l={l}: the table returned for one pair of angles changed when the function was called again for other angles",
+                              {"l": l, "theta": a, "phi": b})
                 try:
                     v1 += 1.0 + 2.0j          # the caller normalises / accumulates in place
                     v1 *= 0.0
@@ -179,8 +193,9 @@ def run(ctx):
         ctx.case(f"delegated/l{l}", l, th, ph, nontrivial=True)
         for a, b in zip(th, ph):
             ref = sph_harm_y(l, ms, a, b)
-            for name, f in (("SphHarm_above", lambda: SH.SphHarm_above(l, float(a), float(b))),
-                            ("sph_harm_l", lambda: SH.sph_harm_l(l, float(a), float(b)))):
+            ll = [l, np.int64(l), np.int32(l)][int(round(abs(a + b) * 1000)) % 3]
+            for name, f in (("SphHarm_above", lambda: SH.SphHarm_above(ll, float(a), float(b))),
+                            ("sph_harm_l", lambda: SH.sph_harm_l(ll, float(a), float(b)))):
                 ok, v = ctx.call(name, f, data={"l": l, "theta": a, "phi": b})
                 if ok:
                     good = v is not None and np.shape(v) == (2 * l + 1,) and np.abs(np.asarray(v) - ref).max() <= 1e-10
